@@ -206,6 +206,17 @@ func FamConc[T any](c Codec[T], seed int64) SysRecord {
 	if !waitAll(&wg, 8*time.Second) {
 		rec.Hang = true
 	}
+	// now and then: a long history of sequential calls on one link (counters, id spaces, tables that only grow)
+	if seed%6 == 1 {
+		const long = 6000
+		for k := 0; k < long; k++ {
+			v, err := p.ra.EchoInt(context.Background(), 70000, int64(k))
+			if err != nil || v != int64(k) {
+				rec.Notes = append(rec.Notes, fmt.Sprintf("sequential call number %d on this link returned (%d, %v), expected (%d, nil)", k+1, v, err, k))
+				break
+			}
+		}
+	}
 	// now and then: more calls in flight at once than any fixed internal bound one might think of
 	if seed%6 == 0 {
 		const many = 1100
@@ -398,6 +409,18 @@ func FamValues[T any](c Codec[T], stream bool, chunk int, seed int64, n int) Sys
 		}
 		cl.Done = true
 		rec.Calls = append(rec.Calls, cl)
+	}
+	// payloads beyond any small fixed buffer size (64 KiB and more), text and binary
+	{
+		big := strings.Repeat("0123456789abcdef", 4400)
+		v, err := p.ra.EchoStr(ctx, 290, big)
+		rec.Calls = append(rec.Calls, SysCall{Tag: 290, From: "A", Method: "EchoStr", Arg: canon(big), Oracle: roundTrip(c, big), Ret: canon(v), Err: errText(err), Done: true})
+		bb := make([]byte, 66000)
+		for i := range bb {
+			bb[i] = byte(i * 7)
+		}
+		vb, err := p.rb.EchoBytes(ctx, 291, bb)
+		rec.Calls = append(rec.Calls, SysCall{Tag: 291, From: "B", Method: "EchoBytes", Arg: canon(bb), Oracle: roundTrip(c, bb), Ret: canon(vb), Err: errText(err), Done: true})
 	}
 	// a burst of pipelined calls in one direction (frames back to back on the transport)
 	{
@@ -700,6 +723,26 @@ func FamClosures[T any](c Codec[T], stream bool, chunk int, seed int64, n int) S
 		pcancel()
 		once.Do(func() { close(rel) })
 		rec.Calls = append(rec.Calls, SysCall{Tag: 486, From: "A", Method: "IterDerived", Ret: v, Err: errText(err), Done: true})
+	}
+	// a function argument that panics on its first invocation: that invocation gets an error, the callable
+	// stays invocable for as long as its call is in flight
+	{
+		var mu sync.Mutex
+		runs := 0
+		pctx, pcancel := context.WithTimeout(ctx, 5*time.Second)
+		v, err := p.ra.Iter(pctx, 483, 3, func(ctx context.Context, i int, s string, xs []int, b bool) (string, error) {
+			mu.Lock()
+			runs++
+			mu.Unlock()
+			if i == 0 {
+				panic(errors.New("cbpanic"))
+			}
+			return fmt.Sprintf("r%d", i), nil
+		})
+		pcancel()
+		mu.Lock()
+		rec.Calls = append(rec.Calls, SysCall{Tag: 483, From: "A", Method: "IterPanicsOnce", Ret: v, Err: errText(err), Done: true, Extra: fmt.Sprint(runs)})
+		mu.Unlock()
 	}
 	// function arguments between plain arguments: every argument arrives in its declared position
 	{
@@ -1049,6 +1092,7 @@ func FamHub[T any](c Codec[T], seed int64) SysRecord {
 	// progress (so that the set-ups overlap between building the remote and registering it)
 	overlap := seed%2 == 0
 	held := make(chan struct{})
+	var eager sync.WaitGroup
 	for i := range spokes {
 		spokes[i] = NewSysNode[T](w, fmt.Sprintf("S%d", i))
 		stream := r.Intn(2) == 0
@@ -1073,6 +1117,22 @@ func FamHub[T any](c Codec[T], seed int64) SysRecord {
 		}
 		links[i] = Connect(w, hub, spokes[i], c, stream, -1, seed+int64(i))
 		if overlap && i >= 1 {
+			// the spoke calls the hub as soon as ITS side of the link is up - while the hub's side may still be
+			// waiting for the registry (the enumeration in progress): nothing of a link is handled before its
+			// connect notification
+			sp := spokes[i]
+			eager.Add(1)
+			go func() {
+				defer eager.Done()
+				if !WaitRemotes(sp, 1) {
+					return
+				}
+				ectx, ecancel := context.WithTimeout(context.Background(), 5*time.Second)
+				defer ecancel()
+				for _, rem := range sp.Remotes() {
+					rem.EchoInt(ectx, 7400+i, int64(i))
+				}
+			}()
 			continue
 		}
 		if !WaitRemotes(hub, i+1) || !WaitRemotes(spokes[i], 1) {
@@ -1082,6 +1142,7 @@ func FamHub[T any](c Codec[T], seed int64) SysRecord {
 	}
 	if overlap {
 		<-held
+		waitAll(&eager, 8*time.Second)
 		if !WaitRemotes(hub, n) {
 			rec.Notes = append(rec.Notes, "link did not come up")
 			return rec
@@ -1396,6 +1457,46 @@ func FamCancel[T any](c Codec[T], stream bool, chunk int, seed int64) SysRecord 
 		}
 		add(SysCall{Tag: 701, From: "B", Method: "StaleInvoke", Extra: fmt.Sprint(ran), Done: true})
 		probe(710, "after a cancelled closure-carrying call and a stale invocation")
+	}
+	// 1b. many calls (more than any small fixed bound) are cancelled while their handlers are still running:
+	//     each returns promptly, and later calls on the link are served although those handlers still run
+	if seed%3 == 0 {
+		const many = 1100
+		mctx, mcancel := context.WithCancel(ctx)
+		errs := make(chan string, many)
+		for k := 0; k < many; k++ {
+			go func() {
+				_, err := p.ra.Gate(mctx, 7500)
+				errs <- errText(err)
+			}()
+		}
+		entered := func() int {
+			n := 0
+			for _, e := range p.w.Events() {
+				if e.Kind == "inv" && e.Method == "Gate" && e.Tag == 7500 {
+					n++
+				}
+			}
+			return n
+		}
+		if !waitUntil(func() bool { return entered() == many }, 10*time.Second) {
+			rec.Notes = append(rec.Notes, fmt.Sprintf("only %d of %d concurrent calls reached their handler", entered(), many))
+		}
+		mcancel()
+		bad := 0
+		for k := 0; k < many; k++ {
+			select {
+			case e := <-errs:
+				if e != "context canceled" {
+					bad++
+				}
+			case <-time.After(5 * time.Second):
+				bad++
+			}
+		}
+		add(SysCall{Tag: 7500, From: "A", Method: "MassCancelled", Ret: fmt.Sprint(bad), Arg: fmt.Sprint(many), Done: true})
+		probe(7510, fmt.Sprintf("after %d calls were cancelled while their handlers are still running", many))
+		close(p.w.gate(7500))
 	}
 	// 2. a handler invokes the peer's closure with a context of its own and cancels it while the
 	//    closure runs: that invocation returns promptly with the context's error, the next one works
